@@ -596,3 +596,47 @@ fn root_relative_paths(path: &Path, depth: usize, pivot: usize) -> (&Path, &Path
             .expect("overflow determining root and relative paths"),
     )
 }
+
+#[cfg(wax_verif)]
+impl<'t> Glob<'t> {
+    /// The regular expressions of the component programs used to prune a walk.
+    #[doc(hidden)]
+    pub fn verif_walk_component_patterns(&self) -> Vec<String> {
+        if self.is_empty() {
+            vec![]
+        }
+        else {
+            WalkProgram::compile::<Tokenized<_>>(self.tree.as_ref())
+                .expect("failed to compile walk program")
+                .iter()
+                .map(|regex| regex.as_str().to_string())
+                .collect()
+        }
+    }
+}
+
+/// The regular expressions of the exhaustive and nonexhaustive programs that `FileIterator::not`
+/// compiles for the given pattern, in that order.
+#[cfg(wax_verif)]
+#[doc(hidden)]
+pub fn verif_negation_patterns<'t, T>(
+    pattern: T,
+) -> Result<(Option<String>, Option<String>), BuildError>
+where
+    T: Pattern<'t>,
+{
+    use FilterAnyProgram::{Empty, Exhaustive, Nonexhaustive, Partitioned};
+
+    let tree = pattern.try_into().map_err(Into::into)?;
+    let filter = FilterAny::any(tree.into_alternatives())?;
+    let text = |regex: &Regex| Some(regex.as_str().to_string());
+    Ok(match filter.program {
+        Empty => (None, None),
+        Exhaustive(ref exhaustive) => (text(exhaustive), None),
+        Nonexhaustive(ref nonexhaustive) => (None, text(nonexhaustive)),
+        Partitioned {
+            ref exhaustive,
+            ref nonexhaustive,
+        } => (text(exhaustive), text(nonexhaustive)),
+    })
+}
